@@ -7,7 +7,8 @@ PROPS["C18"] = dict(
     coq_targets=["Random/Check.vo"],
     check_module="Random.Check",
     check_fn="check_case",
-    coq_shard=40,
+    coq_shard=16,          # ~30 kB of Coq per case: small shards keep every coqc short
+    coq_case_timeout=3000,
     streams=[dict(name="main", quick=240, thorough=8000),
              dict(name="zerotime", quick=32, thorough=800)],
     rule="histories of 10-40 (thorough: 10-100) operations plus a tail of blocks: random requests by 5 consumers "
